@@ -11,6 +11,10 @@ R1  TLC checks MC_Subhint.tla (EXTENDS Subhint EXTENDS Semantics): for a bounded
     hold), LegacyFaithful is beartype 0.23.0 (TLC must REJECT soundness, transitivity, == => equal
     hashes and the children projection: non-vacuity), plus spec mutants (issubclass swapped, union
     rule with any for all, Literal ignoring member types, fixed tuples zipped short).
+    Conventions: an is_subhint call that raises counts as "does not hold" (so a <= b, b <= c with a <= c raising
+    violates transitivity, and h <= h raising violates reflexivity); transitivity is demanded for ALL hints
+    including Any (the statement exempts Any only from soundness) - the violations through Any carry their own
+    keys; soundness is judged only for pairs without Any whose left side has a full meaning in the universe.
 R2  for every enumerated ordered pair the real is_subhint(A, B) and TypeHint(A) == TypeHint(B)
     (value or exception class) are collected (two spellings of every hint) and
       * compared with the faithful IsSub / EqH of the model (binding strength; spec drift only),
@@ -487,21 +491,29 @@ def child_pairs(a, b):
 
 
 class Classifier:
-    def __init__(self, hints, R, unsound):
-        self.hints, self.R = hints, R
+    def __init__(self, hints, R, unsound, rows):
+        self.hints, self.R, self.rows = hints, R, rows
         self.idx = {okey(h): i for i, h in enumerate(hints)}
         self.unsound = unsound        # {(a, b): (j, r)}
 
     def _ix(self, h):
         return self.idx.get(okey(h))
 
-    def sound_root(self, a, b, depth=0):
-        """Descend to the innermost enumerated pair that is itself unsound."""
+    def is_unsound(self, a, b):
+        return (a, b) in self.unsound
+
+    def is_wrong(self, a, b):
+        """(classification only) a real True answer that is unsound or that the demanded relation denies."""
+        return (a, b) in self.unsound or (self.R[a][b] == 1 and self.rows[a]["subI"][b] != 1)
+
+    def sound_root(self, a, b, depth=0, pred=None):
+        """Descend to the innermost enumerated pair that is itself unsound (or wrong)."""
+        pred = pred or self.is_unsound
         if depth < 6:
             for ca, cb in child_pairs(self.hints[a], self.hints[b]):
                 i, j = self._ix(ca), self._ix(cb)
-                if i is not None and j is not None and (i, j) in self.unsound:
-                    return self.sound_root(i, j, depth + 1)
+                if i is not None and j is not None and pred(i, j):
+                    return self.sound_root(i, j, depth + 1, pred)
         return a, b
 
     def sound_key(self, a, b):
@@ -539,12 +551,20 @@ class Classifier:
         if "via" in key:
             return key, (a, b, c)
         a, b, c = self.trans_root(a, b, c)
-        for (x, y) in ((a, b), (b, c)):
-            if (x, y) in self.unsound:
-                k2, _ = self.sound_key(x, y)
-                key["cause"] = "a premise is an unsound is_subhint answer"
-                key["premise"] = f"{k2['a']} <= {k2['b']}"
-                return key, (a, b, c)
+        # (classification only) a premise is itself a wrong answer: rejected on the real code as unsound (first),
+        # or denied by the relation the property demands (flags {} of Subhint.tla; last)
+        def premise(pred):
+            for (x, y) in ((a, b), (b, c)):
+                if pred(x, y):
+                    rx, ry = self.sound_root(x, y, 0, pred)
+                    sa, sb = pair_shapes(H[rx], H[ry])
+                    key["cause"] = ("a premise is itself a wrong is_subhint answer (unsound, or denied by the demanded "
+                                    "relation)")
+                    key["premise"] = f"{sa} <= {sb}"
+                    return True
+            return False
+        if premise(self.is_unsound):
+            return key, (a, b, c)
         if H[c]["k"] == "union":
             for m in _flat(H[c]):
                 im = self._ix(m)
@@ -552,6 +572,8 @@ class Classifier:
                     key["cause"] = "A <= a member M of the union C holds, A <= C does not"
                     key["member"] = shape(m)
                     return key, (a, im, c)
+        if premise(self.is_wrong):
+            return key, (a, b, c)
         key.update({"a": shape(H[a]), "b": shape(H[b]), "c": shape(H[c])})
         if R[a][c] == 2:
             key["conclusion"] = "raises BeartypeDoorIsSubhintException"
@@ -599,6 +621,10 @@ def _r1(rep, tier, d, rows_dir):
     meta, rows = load_rows(rows_dir)
     if any(r is None for r in rows) or len(rows) < 100:
         rep.machinery(f"rows missing: {sum(r is None for r in rows)} of {len(rows)}")
+    n = len(rows)
+    if res.distinct != 1 + (n + 3) // 4 + 3 * n:      # Init, the chunks, and PickHint / WrapOnce / WrapAgain per hint
+        rep.machinery(f"MC_Subhint explored {res.distinct} states, expected {1 + (n + 3) // 4 + 3 * n}: an action was not "
+                      f"taken for every hint")
     mi = write_matrix(d, "m_intended.json", rows, "subI", "eqI")
     mf = write_matrix(d, "m_faithful.json", rows, "subF", "eqF")
     with ThreadPoolExecutor(max_workers=5) as ex:
@@ -650,6 +676,7 @@ def run(rep, tier, seed):
         with mp.get_context("fork").Pool(procs) as pool:
             results = pool.map(_worker, [(rows_dir, c, seed) for c in chunks], chunksize=1)
         _judge(rep, tier, seed, meta, rows, results)
+        _generics(rep)
 
 
 def _judge(rep, tier, seed, meta, rows, results):
@@ -689,7 +716,7 @@ def _judge(rep, tier, seed, meta, rows, results):
         return _sub(is_subhint, XC, w.hint(hints[a], 0), w.hint(hints[b], 0))
 
     # ---- binding strength: the real answers against the faithful model --------------------------------
-    dF = dX = dE = 0
+    dF = dX = dE = dEX = 0
     ex_d = []
     n_true = n_exc = 0
     for a in range(n):
@@ -703,6 +730,7 @@ def _judge(rep, tier, seed, meta, rows, results):
                     ex_d.append(f"is_subhint({S[a]}, {S[b]}): real {v}, model(0.23.0) {rows[a]['subF'][b]}")
             dX += v != rows[a]["subX"][b]
             dE += EQ[a][b] != rows[a]["eqF"][b]
+            dEX += EQ[a][b] != rows[a]["eqX"][b]
             if v == 1:
                 rep.nontrivial(f"T:{_wk(hints[a])}:{_wk(hints[b])}")
             elif v == 2:
@@ -714,6 +742,10 @@ def _judge(rep, tier, seed, meta, rows, results):
     rep.cov["model_agreement_pairs"] = n * n - dF
     rep.cov["real_true_pairs"] = n_true
     rep.cov["real_undecidable_pairs"] = n_exc
+    wks = {_wk(h) for h in hints}
+    missing = set(WK_REAL.values()) - wks
+    if missing:
+        rep.machinery(f"hint set lacks the wrapper classes {sorted(missing)}")
     if n_true <= n or spairs == 0 or scalls == 0:
         rep.machinery(f"vacuous replay: {n_true} true pairs, {spairs} pairs judged for soundness, {scalls} is_bearable calls")
     if dF:
@@ -725,18 +757,19 @@ def _judge(rep, tier, seed, meta, rows, results):
             for m in ex_d:
                 rep.spec_drift(m)
             rep.note(f"SPEC-DRIFT: {dF} real is_subhint answers differ from the faithful model: {ex_d[:3]}")
-    if dE:
+    if dE and (dEX or not dF):
         rep.spec_drift(f"{dE} of {n * n} TypeHint == answers differ from the 0.23.0 model")
     for m in sorted(set(drift_msgs))[:10]:
         rep.spec_drift(m)
     for m in sorted(set(errors))[:5]:
         rep.note("is_bearable raised during the soundness replay: " + m)
 
-    cl = Classifier(hints, R, unsound)
+    cl = Classifier(hints, R, unsound, rows)
 
     # ---- reflexivity ----------------------------------------------------------------------------------
+    same_obj = {i for i, kind, _ in coh if kind == "reflexive_same_object"}
     for a in range(n):
-        if R[a][a] != 1 and real3(a, a) != 1:
+        if a in same_obj or (R[a][a] != 1 and real3(a, a) != 1):
             v = real3(a, a)
             rep.violation({"law": "reflexivity", "a": shape(hints[a]),
                            "outcome": "raises BeartypeDoorIsSubhintException" if v == 2 else str(v)},
@@ -781,16 +814,19 @@ def _judge(rep, tier, seed, meta, rows, results):
                 if R[a][c] != 1:
                     key, root = cl.trans_key(a, b, c)
                     k = json.dumps(key, sort_keys=True)
-                    e = tkeys.setdefault(k, [key, [], 0])
+                    e = tkeys.setdefault(k, [key, [], 0, 0])
                     e[2] += 1
-                    if len(e[1]) < 6 and root not in e[1]:
+                    if root not in e[1]:        # keep the six smallest witnesses of the class
                         e[1].append(root)
+                        if len(e[1]) > 6:
+                            e[1].sort(key=lambda r_: (sum(len(S[i]) for i in r_), r_))
+                            e[1].pop()
     rep.add("transitivity_premise_pairs", n_prem)
     if n_prem < n:
         rep.machinery("vacuous transitivity check")
-    for k, (key, roots, cnt) in tkeys.items():
+    for k, (key, roots, cnt, _) in tkeys.items():
         done = False
-        for (a, b, c) in roots:
+        for (a, b, c) in sorted(roots, key=lambda r_: (sum(len(S[i]) for i in r_), r_)):
             ab, bc, ac = real3(a, b), real3(b, c), real3(a, c)
             if ab == 1 and bc == 1 and ac != 1:
                 rep.violation(key,
@@ -864,10 +900,80 @@ def _judge(rep, tier, seed, meta, rows, results):
     rep.cov["exhaustive"] = True
 
 
+def _generics(rep):
+    """User generics (Generic[T] / list[T] / Sequence[T] / dict[S, T] subclasses) are not modelled in Subhint.tla.
+    Reflexivity and transitivity need no oracle: they are judged on the real answers of a fixed slice."""
+    import itertools
+    from beartype.door import TypeHint, is_subhint
+    from beartype.roar import BeartypeDoorIsSubhintException as XC
+    T = typing
+    u = next(sem._uid)
+    TV, S2 = T.TypeVar(f"GT{u}"), T.TypeVar(f"GS{u}")
+
+    class G(T.Generic[TV]):
+        pass
+
+    class G2(G[TV]):
+        pass
+
+    class GI(G[int]):
+        pass
+
+    class GL(list[TV]):
+        pass
+
+    class GQ(cabc.Sequence[TV]):
+        def __getitem__(self, i):
+            raise IndexError(i)
+
+        def __len__(self):
+            return 0
+
+    class GM(dict[S2, TV]):
+        pass
+
+    for c in (G, G2, GI, GL, GQ, GM):
+        c.__name__ = c.__qualname__ = f"{c.__name__}_{u}"
+    hs = [G, G[int], G[bool], G[str], G[TV], G2, G2[int], G2[bool], GI, GL, GL[int], GL[bool], GQ, GQ[int], GQ[bool],
+          GM, GM[str, int], GM[str, bool], list, list[int], list[bool], cabc.Sequence, cabc.Sequence[int],
+          cabc.Sequence[bool], cabc.Collection[int], dict[str, int], cabc.Mapping[str, int], object,
+          T.Union[G[int], None], T.Union[GL[int], None], T.Union[list[int], None]]
+    n = len(hs)
+    R = [[_sub(is_subhint, XC, a, b) for b in hs] for a in hs]
+    rep.count(n * n)
+    rep.add("generics_slice_pairs", n * n)
+    wkn = [type(TypeHint(h)).__name__ for h in hs]
+
+    def out(v):
+        return "raises BeartypeDoorIsSubhintException" if v == 2 else "is False" if v == 0 else f"raises {v[2:]}"
+    for i in range(n):
+        if R[i][i] != 1:
+            rep.violation({"law": "reflexivity", "hints": "user generics", "a": wkn[i], "outcome": out(R[i][i])},
+                          f"is_subhint(H, H) {out(R[i][i])} for H = {hs[i]!r}", {"law": "generics", "note": repr(hs[i])})
+    seen = {}
+    for a, b, c in itertools.product(range(n), repeat=3):
+        if R[a][b] == 1 and R[b][c] == 1 and R[a][c] != 1:
+            key = {"law": "transitivity", "hints": "user generics", "a": wkn[a], "b": wkn[b], "c": wkn[c],
+                   "conclusion": out(R[a][c])}
+            e = seen.setdefault(json.dumps(key, sort_keys=True), [key, (a, b, c), 0])
+            e[2] += 1
+            rep.nontrivial("G:" + wkn[a] + ":" + wkn[c])
+    for key, (a, b, c), cnt in seen.values():
+        rep.violation(key, f"is_subhint(A, B) and is_subhint(B, C) are True but is_subhint(A, C) {out(R[a][c])}: "
+                           f"A = {hs[a]!r}, B = {hs[b]!r}, C = {hs[c]!r}; {cnt} triples of the slice in this class",
+                      {"law": "generics", "note": f"{hs[a]!r} | {hs[b]!r} | {hs[c]!r}"})
+    rep.cov["generics_slice_true_pairs"] = sum(v == 1 for r in R for v in r)
+
+
 def replay(rep, path):
     from beartype.door import TypeHint, is_bearable, is_subhint
     from beartype.roar import BeartypeDoorIsSubhintException as XC
     case = json.load(open(path))["case"]
+    if case.get("law") == "generics":
+        print("user-generics slice (classes are rebuilt by the check):", case["note"])
+        _generics(rep)
+        rep.level = "exploration"
+        return
     w = World19()
     hs = {k: case[k] for k in ("a", "b", "c") if k in case}
     for sp in (0, 1):
@@ -893,6 +999,11 @@ def replay(rep, path):
                 print(f"  object {x!r}: is_bearable(x, A) = {is_bearable(x, real['a'])}, "
                       f"is_bearable(x, B) = {is_bearable(x, real['b'])}  (draw {r})")
                 rep.count(2)
+    if "spa" in case:
+        ha, hb = w.hint(case["a"], case["spa"]), w.hint(case["b"], case["spb"])
+        ta, tb = TypeHint(ha), TypeHint(hb)
+        print(f"cross spelling: A = {ha!r}, B = {hb!r}: TypeHint(A) == TypeHint(B): {ta == tb}, "
+              f"hash(TypeHint(A)) == hash(TypeHint(B)): {hash(ta) == hash(tb)}")
     rep.level = "exploration"
     rep.nontrivial("a")
     rep.nontrivial("b")
